@@ -250,7 +250,7 @@ def check_arity(prog: Program, res: Result) -> None:
             targets: List[FunctionInfo] = []
             if q in prog.functions:
                 targets = [prog.functions[q]]
-            elif isinstance(call.func, ast.Attribute) and norm(call.func.value) == "self.candidate":
+            elif isinstance(call.func, ast.Attribute) and astq.self_alias(fi.node, call.func.value) == "self.candidate":
                 targets = [m for m in (prog.cls(c).methods.get(call.func.attr) for c in CANDS) if m is not None]
             for callee in targets:
                 bound = astq.bind_args(callee, call, skip_self=callee.cls is not None)
@@ -360,7 +360,7 @@ def check_iface(prog: Program, res: Result) -> None:
         if not fi.module.name.startswith("sleap_nn.tracking.tracker"):
             continue
         for n in walk_function(fi.node):
-            if isinstance(n, ast.Attribute) and norm(n.value) == "self.candidate":
+            if isinstance(n, ast.Attribute) and astq.self_alias(fi.node, n.value) == "self.candidate":
                 par = getattr(n, "_parent", None)
                 if isinstance(par, ast.Call) and par.func is n:
                     res.touch(fi)
